@@ -432,10 +432,13 @@ namespace GeographicLib {
       // atanh( e * d / (1 - e2 * sphi))
       // = atanh( e * d * scphi/(scphi - e2 * tphi))
       // =
-      real scbeta = sc(_fm1 * tphi);
+      // Write f(z)/(e * d), with z = t * d, as (f(z)/z) * (t/e); then the
+      // result doesn't lose accuracy when e * d is denormalized.
+      real scbeta = sc(_fm1 * tphi),
+        t = _f > 0 ? _e1 * scphi / scbeta : _e / (1 - _e2 * sphi),
+        z = t * d;
       return (_f == 0 ? 1 :
-              (_f > 0 ? asinh(_e1 * d * scphi / scbeta) :
-               atan(_e * d / (1 - _e2 * sphi))) / (_e * d) ) +
+              (z == 0 ? 1 : (_f > 0 ? asinh(z) : atan(z)) / z) * (t / _e) ) +
         (_f  > 0 ?
          ((scphi + _e2 * tphi) / (_e2m1 * scbeta)) * (scphi / scbeta) :
         (1 + _e2 * sphi) / ((1 - _e2 * sphi*sphi) * _e2m1) );
